@@ -25,7 +25,9 @@ enum SigKind { S_NOCAL, S_AUTH_VALID, S_AUTH_EXPIRED, S_AUTH_FUTURE, S_AUTH_BADS
 // calendar chain still encodes the real, earlier second; hashes, calendar root and authentication record stay genuine. Internally
 // inconsistent (INT-05): never OK under any policy.
 static const uint64_t EDGE_T0 = 1599600000, EDGE_T1 = 1599650000;
-enum FileKind { F_HONEST, F_ROGUE_SIGNER, F_OTHER_EMAIL, F_BAD_SIGNATURE, F_HTTP_404, F_OTHER_HASHES, F_ONLY_OLD, F__COUNT };
+// F_REDATED_ENTRY: properly signed, but the entry for P1's root is dated one second early (an extender reply that reproduces the root
+// stands for another publication time: PUB-02)
+enum FileKind { F_HONEST, F_ROGUE_SIGNER, F_OTHER_EMAIL, F_BAD_SIGNATURE, F_HTTP_404, F_OTHER_HASHES, F_ONLY_OLD, F_REDATED_ENTRY, F__COUNT };
 
 struct TSig {
 	int kind = 0;
@@ -63,6 +65,7 @@ struct TrustSim {
 			case F_BAD_SIGNATURE: return build_pubfile(certs, pubs, pki("pubsigner"), created, 1);
 			case F_OTHER_HASHES: pubs[1].hash = imprint(1, "other P1"); pubs[2].hash = imprint(1, "other P2"); return build_pubfile(certs, pubs, pki("pubsigner"), created);
 			case F_ONLY_OLD: pubs.resize(1); return build_pubfile(certs, pubs, pki("pubsigner"), created);
+			case F_REDATED_ENTRY: pubs[1].time = P1 - 1; return build_pubfile(certs, pubs, pki("pubsigner"), created);
 			default: return build_pubfile(certs, pubs, pki("pubsigner"), created);
 		}
 	}
@@ -256,7 +259,7 @@ struct TrustSim {
 		if (e.behav != B_HONEST || e.fault || fkind != F_HONEST || upk >= 3) nontrivial = true;
 		if (bw.pub_fetches > fetch0) file_kind_in_effect = fkind;
 		int fk = plan.c("ttl", 0) == 0 ? fkind : F_HONEST;
-		bool file_trusted = fk == F_HONEST || fk == F_OTHER_HASHES || fk == F_ONLY_OLD;
+		bool file_trusted = fk == F_HONEST || fk == F_OTHER_HASHES || fk == F_ONLY_OLD || fk == F_REDATED_ENTRY;
 		bool file_lists_true = fk == F_HONEST;   // lists (P1, root), (P2, root)
 		// was an eligible, honest extender reply served during this call?
 		bool ext_honest = false, ext_any = false;
@@ -304,7 +307,7 @@ struct TrustSim {
 			bool fam_ok = policy == 0 ? (fam == 4 || fam == 2 || fam == 1) : policy == 1 || policy == 2 ? (fam == 3 || fam == 2 || fam == 1) : policy == 3 ? (fam == 5 || fam == 2 || fam == 1) : true;
 			if (!fam_ok) K.fail("C04", "fail-with-undocumented-code", "policy-" + std::to_string(policy), "FAIL under policy %d with error code 0x%x outside the documented family", policy, ec);
 			// an unavailable / failing extender or publications file is inconclusive, never a contradiction
-			bool planted_contradiction = !genuine || upk == 3 || s.kind == S_AUTH_EXPIRED || s.kind == S_AUTH_LEAP_EXPIRED || s.kind == S_AUTH_FUTURE || s.kind == S_AUTH_EDGE_STARTING || s.kind == S_AUTH_BADSIG || s.kind == S_AUTH_EC_GARBAGE || fk == F_OTHER_HASHES ||
+			bool planted_contradiction = !genuine || upk == 3 || s.kind == S_AUTH_EXPIRED || s.kind == S_AUTH_LEAP_EXPIRED || s.kind == S_AUTH_FUTURE || s.kind == S_AUTH_EDGE_STARTING || s.kind == S_AUTH_BADSIG || s.kind == S_AUTH_EC_GARBAGE || fk == F_OTHER_HASHES || fk == F_REDATED_ENTRY ||
 				(ext_any && !bw.fault_fired && (e.behav == B_OTHER_INPUT || e.behav == B_ALTERED_RIGHT_LINK || e.behav == B_WRONG_AGG_TIME || e.behav == B_WRONG_PUB_TIME || e.behav == B_BAD_SHAPE || e.behav == B_EXTRA_LINKS || e.behav == B_NO_AGG_TIME || e.behav == B_PUB_SHIFTED_NO_AGG));
 			if (!planted_contradiction && fam != 2 && fam != 1) K.fail("C04", "fail-without-contradicting-anchor", "policy-" + std::to_string(policy) + "/0x" + std::to_string(ec), "FAIL (0x%x) under policy %d although no anchor contradicts the signature (extender behaviour %s, fault %d, file kind %d)", ec, policy, behav_name(e.behav), e.fault, fk);
 		}
@@ -375,6 +378,8 @@ struct TrustEngine : run::Engine {
 		for (int i = 0; i < n; i++) {
 			if (g.chance(1, 6)) p.ops.push_back({"TICK", {g.pickl<int64_t>({1000, 600000, 3700000})}});
 			if (g.chance(1, 5)) p.ops.push_back({"EXTENDPUB", {(int64_t)g.below(S__COUNT), (int64_t)g.below(2), (int64_t)g.below(4), (int64_t)g.below(1 << 30), g.chance(1, 2) ? 0 : ext_behavs[g.below(sizeof ext_behavs / sizeof ext_behavs[0])]}});
+			// now and then the combination "entry of the file dated one second early" x "extender answers for the next second"
+			if (g.chance(1, 12)) p.ops.push_back({"VERIFY", {g.pickl<int64_t>({S_NOCAL, S_CAL_ONLY, S_AUTH_VALID, S_AUTH_UNKNOWN_CERT}), g.pickl<int64_t>({1, 4}), 0, 1, 1, B_WRONG_PUB_TIME, (int64_t)g.below(1 << 30), 0, 0, F_REDATED_ENTRY}});
 			p.ops.push_back({"VERIFY", {(int64_t)g.below(S__COUNT), (int64_t)g.below(5), (int64_t)g.below(5), (int64_t)g.below(2), g.chance(2, 3) ? 1 : 0, g.chance(3, 4) ? ext_behavs[g.below(sizeof ext_behavs / sizeof ext_behavs[0])] : (int64_t)g.below(B__COUNT), (int64_t)g.below(1 << 30),
 				g.chance(3, 4) ? 0 : (int64_t)g.range(1, 3), (int64_t)g.below(900), g.chance(1, 2) ? 0 : (int64_t)g.below(F__COUNT)}});
 		}
